@@ -456,6 +456,8 @@ def run(ctx):
     source_order(ctx)
     quoted_verbatim(ctx)
     cursor_wrap(ctx)
+    from .. import gensim
+    gensim.check_restore_targets(ctx, 'C15')
     quoted_regexes(ctx)
     return ('Protocol agreement between gen_read_stmt/gen_restore_stmt and '
             'DataDevice (type ids, operand types, emission order), '
